@@ -351,12 +351,12 @@ def plan(tier, seed):
     pl.cases = [c04.framed(c, c.key) for c in base] + c04.wrapper_cases() + ownership_cases()
     pl.canaries = [c04.canary()]
     pl.finite = [("C14-A/effect audit of the installed PLY", ply_audit), ("C04-F/grammar-facts", parsing.grammar_facts)]
-    payload = ({"pool": 10, "cap": 120, "triples": 10, "cap3": 20, "stress_calls": 300} if tier == "quick"
-               else {"pool": 17, "cap": 3000, "triples": 60, "cap3": 200, "stress_calls": 3000})
+    payload = ({"pool": 10, "cap": 120, "triples": 10, "cap3": 20, "stress_calls": 300, "line_pairs": 3, "line_stops": 150} if tier == "quick"
+               else {"pool": 17, "cap": 3000, "triples": 60, "cap3": 200, "stress_calls": 3000, "line_pairs": 4, "line_stops": 100000})
 
     def threads():
         return bounded.run_native("c14_threads", dict(payload, seed=seed, known=bounded.known_for("C14", "C14-B")))
-    pl.bounded = [("C14-B/every interleaving of two parses at lexer-step granularity gives the sequential outcomes", threads)]
+    pl.bounded = [("C14-B/every interleaving of two parses at lexer-step granularity (and line-level preemptions inside luqum) gives the sequential outcomes", threads)]
     pl.functions = sorted(set(parsing.functions_under_contract() + lexing.functions_under_contract()
                               + ["luqum.parser.p_error", "luqum.parser.t_error", "luqum.parser.parse", "luqum.thread.parse",
                                  "luqum.head_tail.HeadTailLexer.handle"]))
